@@ -176,6 +176,12 @@ impl World {
         let before = observe();
         let tree_before = self.tree.clone();
         let threshold_before = self.threshold;
+        if !self.tasks.is_empty() {
+            self.stats.probe("heartbeat_while_call_outstanding");
+            if self.tasks.len() >= 1 && self.stats.probes.get("heartbeat_while_call_outstanding").copied().unwrap_or(0) >= 2 {
+                self.stats.probe("three_or_more_overlapping_heartbeats");
+            }
+        }
         let res = canister::heartbeat(Budget { pause_at }, self.now);
         match res {
             Ok(Polled::Done) => {}
